@@ -118,6 +118,76 @@ def paren_risk(d, ctx=None):
     return any(paren_risk(x) for x in d[1:] if isinstance(x, list))
 
 
+BOOLHEADS = RELHEADS + ("And", "Or", "Xor", "Not", "Contains")
+
+
+def ibound(d):
+    """C type of the double-precision text of d: None = floating, else d is computed in C *integer* arithmetic and the
+    result is a bound on its magnitude.  Integer -> literal without a decimal point (codegen.cpp bvisit(Integer)),
+    relationals and logic -> int, Piecewise / UnevaluatedExpr / Add / Mul / x**-1 of integer-typed operands -> int"""
+    t = d[0]
+    if t == "Integer":
+        n = abs(int(d[1]))
+        return n if n < 2 ** 63 else None
+    if t in BOOLHEADS:
+        return 1
+    if t == "UnevaluatedExpr":
+        return ibound(d[1])
+    if t == "Piecewise":
+        bs = [ibound(e) for e, _ in d[1]]
+        return None if any(b is None for b in bs) else max(bs)
+    if t == "Add":
+        tot = ibound(d[1])
+        if tot is None:
+            return None
+        for term, coef in d[2]:
+            b, c = ibound(term), ibound(coef)
+            if b is None or c is None:
+                return None
+            tot += b * c
+        return tot
+    if t == "Mul":
+        tot = ibound(d[1])
+        if tot is None:
+            return None
+        for base, ex in d[2]:
+            b = ibound(base)
+            if b is None or ex not in (["Integer", "1"], ["Integer", "-1"]):
+                return None
+            if ex == ["Integer", "1"]:
+                tot *= b
+        return tot
+    if t == "Pow" and d[2] == ["Integer", "-1"]:
+        return None if ibound(d[1]) is None else 1
+    return None
+
+
+def int_arith_risk(d):
+    """KF-C15-01 by construction: does the double-precision text of the dump contain a division whose operands all
+    have a C integer type (a quotient n/d of integer-typed numerators and denominators, 1/b, the 1/arg the printer
+    builds for acot/acsc/asec/acoth/acsch/asech), or integer-typed arithmetic that can leave the int range?"""
+    if not isinstance(d, list) or not d:
+        return False
+    if not isinstance(d[0], str):
+        return any(int_arith_risk(x) for x in d)
+    t = d[0]
+    if t == "Mul" and any(ex == ["Integer", "-1"] for _, ex in d[2]):
+        num = [d[1]] + [b for b, ex in d[2] if ex != ["Integer", "-1"]]
+        den = [b for b, ex in d[2] if ex == ["Integer", "-1"]]
+        if all(ex in (["Integer", "1"], ["Integer", "-1"]) for _, ex in d[2]) \
+                and all(ibound(x) is not None for x in num) and all(ibound(x) is not None for x in den):
+            return True
+    if t == "Pow" and d[2] == ["Integer", "-1"] and ibound(d[1]) is not None:
+        return True
+    if t in RINV6 and d[1][0] != "Integer" and ibound(d[1]) is not None:
+        return True
+    if t in ("Add", "Mul"):
+        b = ibound(d)
+        if b is not None and b >= 2 ** 31:
+            return True
+    return any(int_arith_risk(x) for x in d[1:] if isinstance(x, list))
+
+
 def unbounded_interval(d):
     if not isinstance(d, list) or not d:
         return False
@@ -378,6 +448,9 @@ class C15(Check):
                 if not flt and self.tag_active(TAG_BIGINT) and has_huge_int_literal(r):
                     self.skip("known:" + TAG_BIGINT)
                     continue
+                if not flt and self.tag_active(TAG_INT) and int_arith_risk(d):
+                    self.skip("known:" + TAG_INT)
+                    continue
                 bycode.setdefault((r, flt), []).append(pname)
             for (code, flt), names in bycode.items():
                 funcs.append((code, ex["x"]))
@@ -407,25 +480,6 @@ class C15(Check):
                 fails.append((fi, "at %s %s" % (dict(zip(cgen.SYMS, xs[fail[0]])), fail[1])))
             elif judged:
                 okfuncs.append(fi)
-        # ---- KF-C15-01: a failure of a double-precision text that disappears when every integer literal of the
-        # text is given type double is the known integer-arithmetic finding
-        if fails and self.tag_active(TAG_INT):
-            cand = [(fi, msg) for fi, msg in fails
-                    if not owner[fi][2] and cgen.int_literals_as_double(funcs[fi][0]) != funcs[fi][0]]
-            if cand:
-                out2 = cgen.compile_run([(cgen.int_literals_as_double(funcs[fi][0]), funcs[fi][1]) for fi, _ in cand], "r", {})
-                healed = set()
-                for (fi, _), (status, vals) in zip(cand, out2):
-                    if status != "ok":
-                        continue
-                    i, names, flt = owner[fi]
-                    if i not in refs:
-                        refs[i] = [cgen.stable_reference(dumps[i], dict(zip(cgen.SYMS, x))) for x in funcs[fi][1]]
-                    judged, _, fail = self._compare(vals, refs[i], flt)
-                    if judged and fail is None:
-                        healed.add(fi)
-                        self.skip("known:" + TAG_INT, len(names))
-                fails = [(fi, msg) for fi, msg in fails if fi not in healed]
         if fails:
             fi, msg = fails[0]
             i, names, flt = owner[fi]
